@@ -142,21 +142,59 @@ Section Entry.
                       (repeat None (length xs))).
 End Entry.
 
-(* two-series forms are the one-series forms over the zipped series (`combine xs ys`); the index
-   body reads `other.uget(i)` for every i < len xs, so it asserts length xs <= length ys (repaired,
-   see KNOWN_FINDINGS C10); the iterator bodies zip and silently stop at the shorter series.      *)
+(* ---- two-series forms ------------------------------------------------------------------------
+   The index bodies read `self.uget(i)` and `other.uget(i)` for every i < len xs, so they assert
+   length xs <= length ys FIRST (repaired, see KNOWN_FINDINGS C10) and only then the window; past both
+   checks they are the one-series index bodies over the zipped series (`combine xs ys`, of length
+   len xs).  The iterator bodies (default trait methods, `out = None`) assert the window on SELF ONLY
+   (`assert!(window > 0 || self.is_empty())`: the second series is not looked at), then zip and
+   silently stop at the shorter series.  So window 0 with a non-empty first series panics whatever the
+   second series is - also when it is empty and the zipped series would be empty.  rolling2_custom
+   asserts the lengths, then computes `window - 1` (underflow for window 0, also on empty series).
+
+   `guard`: which check stops an entry point before any callback runs; `check2_*` give the FIRST
+   failing check in the order of the code (Proofs/Driver.v: every entry point panics exactly when its
+   check2 function says so, with that kind; the harness compares the identity of the check too).   *)
+Inductive guard := GWindow | GShorter | GUnderflow.
+Definition guard_kind (g : guard) : panic_kind :=
+  match g with GWindow | GShorter => AssertFail | GUnderflow => Underflow end.
+Definition guard_id (g : option guard) : nat :=
+  match g with None => 0 | Some GWindow => 1 | Some GShorter => 2 | Some GUnderflow => 3 end.
+
 Section Two.
   Context {T1 T2 S O : Type}.
+
+  (* assert!(window > 0 || self.is_empty()) *)
+  Definition check2_default (w : nat) (xs : list T1) (ys : list T2) : option guard :=
+    if bad_window w xs then Some GWindow else None.
+  (* assert!(other.len() >= len); assert!(window > 0 || len == 0) *)
+  Definition check2_to (w : nat) (xs : list T1) (ys : list T2) : option guard :=
+    if length ys <? length xs then Some GShorter
+    else if bad_window w xs then Some GWindow else None.
+  (* assert!(other.len() >= self.len()); repeat_n(0, window - 1) *)
+  Definition check2_custom (w : nat) (xs : list T1) (ys : list T2) : option guard :=
+    if length ys <? length xs then Some GShorter
+    else if w =? 0 then Some GUnderflow else None.
+
+  (* self.titer().zip(other.titer()).zip(repeat_n(None, w-1).chain((0..self.len()).map(Some))).enumerate():
+     the start iterator counts up to len SELF, the zip stops at the shorter series *)
+  Definition args_iter_idx2 (w : nat) (xs : list T1) (ys : list T2) : list (option nat * nat * (T1 * T2)) :=
+    map (fun '(e, (v, st)) => (st, e, v))
+        (combine (seq 0 (length (combine xs ys)))
+                 (combine (combine xs ys) (repeat None (w - 1) ++ map Some (seq 0 (length xs))))).
+
   Definition rolling2_apply_default (w : nat) (f : S -> option (T1 * T2) * (T1 * T2) -> S * O) s0
              (xs : list T1) (ys : list T2) : outcome O :=
-    rolling_apply_default w f s0 (combine xs ys).
+    if bad_window w xs then Panicked AssertFail
+    else Done (run f s0 (args_iter w (combine xs ys))).
   Definition rolling2_apply_to (w : nat) (f : S -> option (T1 * T2) * (T1 * T2) -> S * O) s0
              (xs : list T1) (ys : list T2) : outcome O :=
     if length ys <? length xs then Panicked AssertFail   (* assert!(other.len() >= len) *)
     else rolling_apply_to w f s0 (combine xs ys).
   Definition rolling2_apply_idx_default (w : nat) (f : S -> option nat * nat * (T1 * T2) -> S * O) s0
              (xs : list T1) (ys : list T2) : outcome O :=
-    rolling_apply_idx_default w f s0 (combine xs ys).
+    if bad_window w xs then Panicked AssertFail
+    else Done (run f s0 (args_iter_idx2 w xs ys)).
   Definition rolling2_apply_idx_to (w : nat) (f : S -> option nat * nat * (T1 * T2) -> S * O) s0
              (xs : list T1) (ys : list T2) : outcome O :=
     if length ys <? length xs then Panicked AssertFail
